@@ -112,7 +112,7 @@ class C02(GenCheck):
                 return ["r", "sr", no]
             return ["r", kind, no]
         if r < 0.8:
-            return ["c", rng.choice([0, 1, 2, 3, 7, 10, 100, 1000, 12345])]
+            return ["c", rng.choice([0, 1, 2, 3, 7, 10, 100, 1000, 12345, 21474, 21475, 30000, 42949, 42950, 250000, -30000, -21475])]
         return ["c", float(rng.choice(DECIMALS))]
 
     def rand_expr(self, rng, names, case, depth):
